@@ -435,7 +435,7 @@ fn collect_ready_errs(f: &F, w: &W, chain: &[(usize, Aff)], out: &mut Vec<(u32, 
             c.extend_from_slice(chain);
             collect_ready_errs(t, w, &c, out);
         }
-        F::Map { t, .. } | F::MapErr { t, .. } | F::MapConfig { t, .. } | F::UnitConfig { t, .. } | F::ApplyFn { t, .. } | F::Transform { t, .. } | F::BoxFactory(t) | F::Rc(t) => {
+        F::Map { t, .. } | F::MapErr { t, .. } | F::MapConfig { t, .. } | F::UnitConfig { t, .. } | F::ApplyFn { t, .. } | F::Transform { t, .. } | F::BoxFactory(t) | F::Rc(t) | F::Arc(t) => {
             collect_ready_errs(t, w, chain, out)
         }
         F::ApplyCfgFactory { t, .. } => {
@@ -474,7 +474,8 @@ pub fn t_strategy() -> impl Strategy<Value = T> {
             1 => inner.clone().prop_map(|t| T::Boxed(Box::new(t))),
             1 => inner.clone().prop_map(|t| T::RefCell(Box::new(t))),
             1 => inner.clone().prop_map(|t| T::Ref(Box::new(t))),
-            2 => inner.prop_map(|t| T::Split(Box::new(t))),
+            2 => inner.clone().prop_map(|t| T::Split(Box::new(t))),
+            1 => inner.prop_map(|t| T::RefMut(Box::new(t))),
         ]
     })
 }
@@ -495,10 +496,11 @@ pub fn f_strategy() -> impl Strategy<Value = F> {
             2 => (inner.clone(), aff()).prop_map(|(t, f)| F::MapConfig { id: 0, f, t: Box::new(t) }),
             1 => (inner.clone(), 0u32..9).prop_map(|(t, c0)| F::UnitConfig { c0, t: Box::new(t) }),
             2 => (inner.clone(), mode_s(), aff()).prop_map(|(t, mode, f)| F::ApplyFn { id: 0, mode, f, t: Box::new(t) }),
-            3 => (inner.clone(), aff()).prop_map(|(t, pre)| F::Transform { item: 0, pre, t: Box::new(t) }),
+            3 => (inner.clone(), aff(), 0u8..3).prop_map(|(t, pre, wrap)| F::Transform { item: 0, pre, t: Box::new(t), wrap }),
             2 => (inner.clone(), 0u32..9).prop_map(|(t, c0)| F::ApplyCfgFactory { item: 0, c0, t: Box::new(t) }),
             1 => inner.clone().prop_map(|t| F::BoxFactory(Box::new(t))),
-            1 => inner.prop_map(|t| F::Rc(Box::new(t))),
+            1 => inner.clone().prop_map(|t| F::Rc(Box::new(t))),
+            1 => inner.prop_map(|t| F::Arc(Box::new(t))),
         ]
     })
 }
@@ -523,7 +525,7 @@ pub fn fac_strategy() -> impl Strategy<Value = FacCase> {
         .prop_map(|(tree, leaves, cfg, reqs, drop_factory_early)| FacCase { tree, leaves, cfg, reqs, drop_factory_early })
 }
 
-const RULE_11: &str = "random combinator expression trees (depth <= 3 recursion levels; and_then, map, map_err, apply_fn in 4 modes, boxed::service, rc_service, Rc, Box, RefCell, & wrappers, fn_service, and 'split' nodes that ask readiness through one clone of a combinator service and send requests through another; factory forms: and_then, map, map_err, map_init_err, map_config, unit_config, apply_fn_factory, apply(Transform), apply_cfg, apply_cfg_factory, boxed::factory, Rc, fn_factory, fn_factory_with_config) over scripted leaves (call: 0..2 Pending then Ok(f(req))/Err(g(req)); init: 0..2 Pending then Ok/InitErr; call futures optionally coupled through one shared permit that a 'hold' future owns from creation to drop and a 'need' future cannot progress without; a transform's construction future fails if the transform object is dropped while it runs), 1-3 requests, each factory built twice, in half of the cases the factory value is dropped right after the last new_service call; result and exact sequential log of leaf calls and mapper applications compared with a reference interpreter; factories: each item created once with the mapped config, first init error in time (ties accepted), produced service judged by the service oracle; non-trivial = depth >= 2 with and_then / a factory chain and a Pending or Err leaf";
+const RULE_11: &str = "random combinator expression trees (depth <= 3 recursion levels; and_then, map, map_err, apply_fn in 4 modes, boxed::service, rc_service, Rc, Box, RefCell, &, &mut wrappers, fn_service, and 'split' nodes that ask readiness through one clone of a combinator service and send requests through another; factory forms: and_then, map, map_err, map_init_err, map_config, unit_config, apply_fn_factory, apply(Transform | Rc<Transform> | Arc<Transform>), apply_cfg, apply_cfg_factory, boxed::factory, Rc, Arc, fn_factory, fn_factory_with_config) over scripted leaves (call: 0..2 Pending then Ok(f(req))/Err(g(req)); init: 0..2 Pending then Ok/InitErr; call futures optionally coupled through one shared permit that a 'hold' future owns from creation to drop and a 'need' future cannot progress without; a transform's construction future fails if the transform object is dropped while it runs), 1-3 requests, each factory built twice, in half of the cases the factory value is dropped right after the last new_service call; result and exact sequential log of leaf calls and mapper applications compared with a reference interpreter; factories: each item created once with the mapped config, first init error in time (ties accepted), produced service judged by the service oracle; non-trivial = depth >= 2 with and_then / a factory chain and a Pending or Err leaf";
 const RULE_12: &str = "same trees; leaves are state-based (Pending/Ready/Err changed between composite polls by the driver, waking stored wakers); executor with a fresh waker per poll that re-polls only after a wake-up; poll_ready: Ready(Ok) only if all leaves ready, Err must be a (mapped) leaf error, Pending only if a leaf is pending and every pending leaf was polled with the current waker; futures: no poll after completion, Pending only while an inner future (or readiness wait) is pending and polled with the current waker, wake-through, no stage invoked twice; non-trivial = >= 2 leaves with a pending readiness, or a pending inner future";
 
 pub fn run_c11(ctx: &Ctx) {
@@ -531,7 +533,7 @@ pub fn run_c11(ctx: &Ctx) {
     ctx.run_corpus::<SvcCase>("svc", |c| check_svc(Mode::Functional, c));
     ctx.run_corpus::<FacCase>("fac", |c| check_fac(Mode::Functional, c));
     ctx.run_random(
-        Part::new("svc", RULE_11, ctx.tier.scale(300_000, 10)).floors(&[("and_then", 0.4), ("pending-future", 0.3), ("call-error", 0.2), ("depth>=3", 0.1), ("coupled-stages", 0.015)]),
+        Part::new("svc", RULE_11, ctx.tier.scale(300_000, 10)).floors(&[("and_then", 0.3), ("pending-future", 0.25), ("call-error", 0.15), ("depth>=3", 0.1), ("coupled-stages", 0.015)]),
         svc_strategy,
         |c| check_svc(Mode::Functional, c),
     );
@@ -547,7 +549,7 @@ pub fn run_c12(ctx: &Ctx) {
     ctx.run_corpus::<SvcCase>("svc", |c| check_svc(Mode::Contract, c));
     ctx.run_corpus::<FacCase>("fac", |c| check_fac(Mode::Contract, c));
     ctx.run_random(
-        Part::new("svc", RULE_12, ctx.tier.scale(300_000, 10)).floors(&[("and_then", 0.4), ("pending-readiness", 0.3), ("pending-future", 0.3), ("readiness-error", 0.05)]),
+        Part::new("svc", RULE_12, ctx.tier.scale(300_000, 10)).floors(&[("and_then", 0.3), ("pending-readiness", 0.2), ("pending-future", 0.3), ("readiness-error", 0.05)]),
         svc_strategy,
         |c| check_svc(Mode::Contract, c),
     );
